@@ -85,6 +85,8 @@ def sub_general(case):
             kw = dict(poses_se3=[T.copy() for T in real.poses])
         if timed:
             kw["timestamps"] = real.T.copy()
+        # ... and the same meta dict (e.g. reference and estimate of one recording)
+        kw["meta"] = {"frame_id": "map", "recording": 7}
         cls = PoseTrajectory3D if timed else PosePath3D
         other = cls(**kw)
         obj = cls(**kw)
@@ -109,6 +111,8 @@ def sub_general(case):
                 obj.align_origin(real.build(timed=timed))
             elif op == "read":
                 obj.positions_xyz, obj.orientations_quat_wxyz, obj.poses_se3
+            elif op == "meta":
+                obj.meta = {"frame_id": "odom"}   # user bookkeeping replaced: still the same, already projected object
         _second_projection_refused(obj, other)
     return plane + ("/ops_between" if case.get("between") else "")
 
@@ -202,7 +206,7 @@ st_general = st.integers(1, 10).flatmap(lambda n: st.fixed_dictionaries({
         gen.fl(-3.1, 3.1), gen.fl(-3.1, 3.1), st.sampled_from([1.0, -1.0])))),
     "second": st.lists(st.sampled_from(["xy", "xz", "yz"]), min_size=1, max_size=2),
     "shared": st.sampled_from([None, None, None, "xy", "xz", "yz"]),
-    "between": st.lists(st.sampled_from(["tl", "tr", "scale", "ids", "origin", "read"]), max_size=3),
+    "between": st.lists(st.sampled_from(["tl", "tr", "scale", "ids", "origin", "read", "meta"]), max_size=3),
 }))
 st_planar = st.fixed_dictionaries({
     "plane": st.sampled_from(["xy", "xz", "yz"]),
